@@ -200,7 +200,7 @@ Section Hist.
     - (* calculate *)
       slot H self a1 q1 q1' Ht1 o1 Ho1; try (apply unbound_rel; auto).
       destruct o1; try (apply unbound_rel; auto).
-      destruct sequence as [ |b0|z0|bits0|cps0|bs0|l0|l0|kv0| |nq]; try (apply store_same; auto).
+      destruct sequence as [ |b0|z0|bits0|cps0|bs0|l0|l0|kv0| |nq|g0]; try (apply store_same; auto).
       slot H nq a2 q2 q2' Ht2 o2 Ho2; try (apply unbound_rel; auto).
       + destruct (calc_rel a s a2 q2 q2' Ht2) as [Hf Hs].
         destruct (glue_calculate K a s a2 q2) as [r1 p1], (glue_calculate K a s a2 q2') as [r2 p2].
@@ -215,8 +215,8 @@ Section Hist.
     - recv_done H self.
     - recv_store H self.
     - (* scan *)
-      destruct pssm as [ |b1|z1|bits1|cps1|bs1|l1|l1|kv1| |np];
-        destruct sequence as [ |b0|z0|bits0|cps0|bs0|l0|l0|kv0| |nq];
+      destruct pssm as [ |b1|z1|bits1|cps1|bs1|l1|l1|kv1| |np|g1];
+        destruct sequence as [ |b0|z0|bits0|cps0|bs0|l0|l0|kv0| |nq|g0];
         try (apply store_same; auto); try (arg_other H np; fail); try (arg_other H nq; fail).
       slot H np a1 q1 q1' Ht1 o1 Ho1.
       + destruct (lookup st nq), (lookup st' nq); apply unbound_rel; auto.
@@ -259,9 +259,9 @@ Section Hist.
     - (* == *)
       slot H self a1 q1 q1' Ht1 o1 Ho1.
       + apply unbound_same; auto.
-      + destruct other as [ |b0|z0|bits0|cps0|bs0|l0|l0|kv0| |nq]; try (apply unbound_same; auto).
+      + destruct other as [ |b0|z0|bits0|cps0|bs0|l0|l0|kv0| |nq|g0]; try (apply unbound_same; auto).
         slot H nq a2 q2 q2' Ht2 o2 Ho2; apply unbound_same; auto.
-      + destruct other as [ |b0|z0|bits0|cps0|bs0|l0|l0|kv0| |nq];
+      + destruct other as [ |b0|z0|bits0|cps0|bs0|l0|l0|kv0| |nq|g0];
           try (destruct (glue_eq K o1 None); [apply done_rel | apply unbound_same]; auto).
         slot H nq a2 q2 q2' Ht2 o2 Ho2.
         * apply unbound_same; auto.
